@@ -61,17 +61,20 @@ def _instrument(w, counter):
     w._patch(cs.CircusSocket, 'close', close)
 
 
-def c07_sockets(vi: int, e1: int, p1: int, e2: int, p2: int) -> bool:
+def c07_sockets(vi: int, e1: int, p1: int, e2: int, p2: int, e3: int, p3: int) -> bool:
     """
     pre: vi == rt.S['vi'] and 0 <= e1 < len(EVENTS) and 0 <= e2 < len(EVENTS)
-    pre: 0 <= p1 <= 1 and 0 <= p2 <= 1
+    pre: 0 <= p1 <= 1 and 0 <= p2 <= 1 and 0 <= p3 <= 1 and 0 <= e3 < len(EVENTS)
     pre: rt.S.get('K', 2) >= 2 or (e2 == 0 and p2 == 0)
+    pre: rt.S.get('K', 2) >= 3 or (e3 == 0 and p3 == 0)
+    pre: rt.S.get('e1', -1) in (-1, e1)
     post: _
     """
     S = rt.S
     vi = rt.pick(vi, len(VARIANTS))
     e1 = rt.pick(e1, len(EVENTS))
     e2 = rt.pick(e2, len(EVENTS))
+    e3 = rt.pick(e3, len(EVENTS))
     variant = VARIANTS[vi]
     tmp = tempfile.mkdtemp(prefix='c07_')
     from circus.sockets import CircusSocket
@@ -138,6 +141,9 @@ def c07_sockets(vi: int, e1: int, p1: int, e2: int, p2: int) -> bool:
             sc.settle(checks=1)
             if S.get('K', 2) >= 2:
                 apply(EVENTS[e2], p2)
+                sc.settle(checks=1)
+            if S.get('K', 2) >= 3:
+                apply(EVENTS[e3], p3)
                 sc.settle(checks=1)
             if w.clock.tripped:
                 return rt.skip()
@@ -382,8 +388,9 @@ def plan(tier):
     return [
         Cond('c07_reloadconfig', budget=120, twins=1,
              bounds={'e1,e2': 'S: two reloadconfig requests after edits from %r (socket sections untouched)' % (RELOAD_EDITS,)}),
-        Cond('c07_sockets', shards=[{'vi': i, 'K': 1 if q else 2} for i in range(len(VARIANTS))] + ([{'vi': 0, 'K': 2}, {'vi': 4, 'K': 2}] if q else []),
+        Cond('c07_sockets', shards=[{'vi': i, 'K': 1 if q else 2} for i in range(len(VARIANTS))] + ([{'vi': 0, 'K': 2}, {'vi': 4, 'K': 2}] if q else
+                                                                                                  [{'vi': 0, 'K': 3, 'e1': e} for e in range(len(EVENTS))]),
              budget=240 if q else 1500, twins=2,
              bounds={'variant': 'S%r' % (VARIANTS,), 'e1,e2': 'S: %d events (deaths, restart, 3 reload modes, incr, decr, check, stop, start, set cmd -> another socket)' % len(EVENTS),
-                     'p': 'S{0,1}', 'K': 'S{1,2}'}),
+                     'p': 'S{0,1}', 'K': 'S{1,2} (thorough: 2, and 3 for the first variant)'}),
     ]
